@@ -199,6 +199,7 @@ type Driver struct {
 	prog     *ssa.Program
 	pkgs     map[string]*ssa.Package
 	ov       *Overlay
+	debug    bool
 }
 
 func LoadKnown(path string) ([]KnownFinding, error) {
@@ -295,6 +296,18 @@ func (d *Driver) runInstance(in *Instance) *InstanceResult {
 		return res
 	}
 	defer ex.Close()
+	if d.debug {
+		last := time.Now()
+		ex.Progress = func(e *Exec) {
+			if time.Since(last) > 2*time.Second {
+				last = time.Now()
+				fmt.Printf("  paths=%d queries=%d solver=%.1fs trail=%d lastEnd=%s findings=%d\n", e.Stats.Paths, e.Solver().Queries, e.Solver().Time.Seconds(), len(e.trail), e.LastEnd, len(e.Findings))
+			}
+		}
+		if os.Getenv("GOSYM_TRACE") != "" {
+			ex.Trace = true
+		}
+	}
 	func() {
 		defer func() {
 			if r := recover(); r != nil {
@@ -863,4 +876,29 @@ func (d *Driver) ReplayOne(path string) int {
 	}
 	fmt.Println("not reproduced", out.Err)
 	return 0
+}
+
+// RunOne runs a single instance with progress output (debugging aid).
+func (d *Driver) RunOne(harness string, params map[string]int) int {
+	if err := d.load(); err != nil {
+		fmt.Println("ERROR:", err)
+		return 3
+	}
+	for i := range d.Spec.Harnesses {
+		h := &d.Spec.Harnesses[i]
+		if h.Name != harness {
+			continue
+		}
+		d.debug = true
+		r := d.runInstance(&Instance{H: h, Params: params})
+		b, _ := json.MarshalIndent(r.Stats, "", " ")
+		fmt.Println(string(b))
+		for _, f := range r.Findings {
+			fmt.Printf("FINDING %s:%s at %s %s\n  model=%v\n  stack=%v\n", f.Kind, f.Label, f.Site, f.Pos, modelToValues(f.Model, r.Metas[f.Key()]), f.Stack)
+		}
+		fmt.Printf("solver: %+v wall=%.1fs err=%s\n", r.Solver, r.WallS, r.Err)
+		return 0
+	}
+	fmt.Println("no such harness")
+	return 3
 }
